@@ -1,6 +1,97 @@
-import HranoModel.Model.Options
-import HranoModel.Model.Sink
-import HranoModel.Model.Chan
-/-! C02 property theorems (statements only in this file; helper lemmas live in Lemmas/) -/
+import HranoModel.Lemmas.Merge
+import HranoModel.Model.App
+/-!
+C02 — the register reports each day's foods, ingredients and signed totals exactly.
+
+Property theorems only (helper lemmas: `Lemmas/Accum.lean`, `Lemmas/Merge.lean`, `Lemmas/Sort.lean`).
+Quantities are exact rationals; the specification vocabulary (`sumOf`, `posOf`, `negOf`,
+`distinctNames`, `dayContributions`) is in `Spec/Sums.lean`.
+-/
 namespace Hrano.C02
+open Hrano Hrano.Spec Hrano.Report
+
+/-- Within a day each distinct food appears once, in first-appearance order, with the sum of its
+    logged quantities (`NewLogNodeFromElements`). -/
+theorem day_foods (entries : Elements) :
+    Elements.names (mergeDay entries) = distinctNames entries
+    ∧ (Elements.names (mergeDay entries)).Nodup
+    ∧ ∀ f, Elements.valueAt (mergeDay entries) f = sumOf f entries :=
+  ⟨mergeDay_names entries, mergeDay_nodup entries, mergeDay_value entries⟩
+
+/-- Each food is followed by its quantity times each resolved element of the food, or by the food
+    itself when the book does not define it (`GetReportItem`). -/
+theorem item_ingredients (db : Book) (cfg : RCfg) (d : LogDay) (h : cfg.totalsOnly = false) :
+    (reportItem db cfg d).1 = d.elements.map (fun e =>
+      { name := e.name, value := e.value,
+        ingredients := match db.lookup e.name with
+          | some els => els.map (fun r => ⟨r.name, r.value * e.value⟩)
+          | none => [⟨e.name, e.value⟩] }) := by
+  simp only [reportItem, h, contributions]
+  rfl
+
+/-- **The day's totals**: every contributed element exactly once, sorted by name, with the sum of its
+    non-negative contributions, the sum of its negative contributions, and their sum. -/
+theorem item_totals (db : Book) (cfg : RCfg) (d : LogDay) (h : cfg.totals = true) :
+    ∃ ts, (reportItem db cfg d).2 = some ts
+      ∧ (ts.map (·.name)).Pairwise (fun a b => Bytes.le a b = true)
+      ∧ (ts.map (·.name)).Nodup
+      ∧ (∀ n, n ∈ ts.map (·.name) ↔ n ∈ (dayContributions db d.elements).map (·.name))
+      ∧ ∀ t ∈ ts, t.pos = posOf t.name (dayContributions db d.elements)
+          ∧ t.neg = negOf t.name (dayContributions db d.elements)
+          ∧ t.sum = t.pos + t.neg
+          ∧ t.sum = sumOf t.name (dayContributions db d.elements) := by
+  let cs := dayContributions db d.elements
+  have hacc : d.elements.foldl (fun a e => accumulate a (contributions db e)) [] = accumulate [] cs :=
+    foldl_accumulate_flatten (contributions db) d.elements []
+  have hnd : (Accumulator.names (accumulate [] cs)).Nodup := nodup_accumulate cs [] (by simp [Accumulator.names])
+  refine ⟨totalsOf (accumulate [] cs), ?_, ?_, ?_, ?_, ?_⟩
+  · simp only [reportItem, h, if_true, hacc]
+  · -- sorted
+    have hs := Srt.sortBy_sorted (fun a : Acc => a.name) (accumulate [] cs)
+    simp only [totalsOf, Srt.acc_sorted_eq, List.map_map]
+    exact List.pairwise_map.mpr hs
+  · -- each once
+    simp only [totalsOf, Srt.acc_sorted_eq, List.map_map]
+    have hp := Srt.sortBy_perm (fun a : Acc => a.name) (accumulate [] cs)
+    exact (hp.map _).nodup_iff.mpr hnd
+  · -- exactly the contributed names
+    intro n
+    simp only [totalsOf, Srt.acc_sorted_eq, List.map_map]
+    have hp := Srt.sortBy_perm (fun a : Acc => a.name) (accumulate [] cs)
+    rw [(hp.map _).mem_iff]
+    have := mem_names_accumulate cs [] n
+    simpa [Accumulator.names] using this
+  · -- the figures
+    intro t ht
+    simp only [totalsOf, Srt.acc_sorted_eq, List.mem_map] at ht
+    obtain ⟨a, ha, rfl⟩ := ht
+    have ha' : a ∈ accumulate [] cs := (Srt.sortBy_perm _ _).mem_iff.mp ha
+    have hf := Accumulator.find_of_mem _ hnd a ha'
+    have hpos : a.pos = posOf a.name cs := by
+      have := posAt_accumulate cs [] a.name
+      simp only [Accumulator.posAt, hf] at this
+      simpa [Accumulator.find, Rat.zero_add] using this
+    have hneg : a.neg = negOf a.name cs := by
+      have := negAt_accumulate cs [] a.name
+      simp only [Accumulator.negAt, hf] at this
+      simpa [Accumulator.find, Rat.zero_add] using this
+    refine ⟨hpos, hneg, rfl, ?_⟩
+    show a.pos + a.neg = sumOf a.name cs
+    rw [hpos, hneg, pos_add_neg]
+
+/-- The register shows every selected day, in file order: it is the concatenation of the per-day blocks. -/
+theorem register_days (rc : RCfg) (db : Book) (days : List LogDay)
+    (h1 : rc.singleElement = []) (h2 : rc.singleFood = []) (h3 : rc.oldReg = false) (h4 : rc.leftAligned = false) :
+    App.regOutput rc db days = (days.map (fun d => renderDefault rc d db)).flatten := by
+  simp [App.regOutput, App.perDay, h1, h2, h3, h4]
+
+/-! non-vacuity: a day with a repeated food, a negative quantity, a food the book defines and an element
+    that is logged directly and also comes from a recipe -/
+def demoBook : Book := [([115], [⟨[99], 40⟩, ⟨[102], -2⟩])]     -- s: c 40, f -2
+def demoDay : LogDay := ⟨⟨2021, 1, 24⟩, mergeDay [⟨[115], 2⟩, ⟨[99], 5⟩, ⟨[115], -1⟩, ⟨[98], 0⟩], []⟩
+
+example : Elements.names demoDay.elements = [[115], [99], [98]] := by decide
+example : (reportItem demoBook {} demoDay).2.map (fun ts => ts.map (fun t => (t.name, t.pos, t.neg, t.sum)))
+    = some [([98], 0, 0, 0), ([99], 45, 0, 45), ([102], 0, -2, -2)] := by decide +kernel
+
 end Hrano.C02
